@@ -114,7 +114,7 @@ pub fn execute<H: Helper>(
         }
         Cmd::Yank(n, anchor) => {
             // retrieve (yank) last item killed
-            if let Some(text) = kill_ring.yank() {
+            if let Some(text) = kill_ring.yank_n(usize::from(n)) {
                 s.edit_yank(input_state, text, anchor, n)?;
             }
         }
